@@ -37,8 +37,12 @@ Theorem C05_jitter_passthrough : forall p lo hi b n rnd tmp rnd1,
 Proof. exact jitter_passthrough. Qed.
 
 (** jitter band: between the two saturated products, never negative, never
-    above MaxInt64, for every outcome of the random source.  Partial: that the
-    two products are ordered int64 values is a float fact assumed here. *)
+    above MaxInt64, for every outcome of the random source.  Here the ordering
+    of the two products is a hypothesis; it is DISCHARGED for all rates the
+    constructor accepts in Properties/C05Float.v ([C05_jitter_band],
+    [C05_sat_mul_jitter_ordered]), together with "never below initial" and
+    monotonicity of the exponential policy ([C05_exponential_ge_initial],
+    [C05_exponential_monotone]). *)
 Theorem C05_jitter_band_partial : forall p lo hi b n rnd tmp rnd1,
   words rnd1 ->
   next_delay p b n rnd = Some (tmp, rnd1) -> 0 < tmp ->
